@@ -152,6 +152,7 @@ type hbField struct{ pkg, typ, field string }
 
 var (
 	hbFields   []hbField
+	hbElems    []hbField // slice-typed fields whose ELEMENTS are designated
 	hbMapTypes []string
 )
 
@@ -168,9 +169,15 @@ func parseHB() {
 			hbMapTypes = append(hbMapTypes, strings.TrimPrefix(s, "maptype:"))
 			continue
 		}
+		elems := strings.HasPrefix(s, "elems:")
+		s = strings.TrimPrefix(s, "elems:")
 		// pkgpath.Type.field
 		i := strings.LastIndex(s, ".")
 		j := strings.LastIndex(s[:i], ".")
+		if elems {
+			hbElems = append(hbElems, hbField{s[:j], s[j+1 : i], s[i+1:]})
+			continue
+		}
 		hbFields = append(hbFields, hbField{s[:j], s[j+1 : i], s[i+1:]})
 	}
 }
@@ -1215,7 +1222,11 @@ func (rw *rewriter) wrapCall(c *astutil.Cursor, call *ast.CallExpr, what string,
 // ---- happens-before instrumentation of designated state -------------------
 
 func (rw *rewriter) hbPost(c *astutil.Cursor) {
-	if len(hbFields) == 0 && len(hbMapTypes) == 0 {
+	if len(hbFields) == 0 && len(hbMapTypes) == 0 && len(hbElems) == 0 {
+		return
+	}
+	if strings.HasSuffix(rw.pkg.Path(), "/zzverif/h") {
+		// the harness's own bookkeeping is not state of the code under test
 		return
 	}
 	// Only statements in statement lists are instrumented: the accesses a
@@ -1238,10 +1249,18 @@ func (rw *rewriter) hbPost(c *astutil.Cursor) {
 	}
 	var pre []ast.Stmt
 	for _, a := range writes {
-		pre = append(pre, exprStmt(simCall("Write", rw.site(st, "w:"+a.desc), a.key)))
+		fn := "Write"
+		if a.all {
+			fn = "WriteElems"
+		}
+		pre = append(pre, exprStmt(simCall(fn, rw.site(st, "w:"+a.desc), a.key)))
 	}
 	for _, a := range reads {
-		pre = append(pre, exprStmt(simCall("Read", rw.site(st, "r:"+a.desc), a.key)))
+		fn := "Read"
+		if a.all {
+			fn = "ReadElems"
+		}
+		pre = append(pre, exprStmt(simCall(fn, rw.site(st, "r:"+a.desc), a.key)))
 	}
 	rw.used = true
 	counts["hb"] += len(pre)
@@ -1253,6 +1272,7 @@ func (rw *rewriter) hbPost(c *astutil.Cursor) {
 type hbAcc struct {
 	key  ast.Expr
 	desc string
+	all  bool // key is a slice; every element is accessed
 }
 
 // hbAccesses finds, in the header part of a statement (not in nested blocks,
@@ -1271,9 +1291,9 @@ func (rw *rewriter) hbAccesses(st ast.Stmt) (reads, writes []hbAcc) {
 			return
 		}
 		seen[k] = true
-		*list = append(*list, hbAcc{key, desc})
+		*list = append(*list, hbAcc{key: key, desc: desc})
 	}
-	isDesignatedField := func(se *ast.SelectorExpr) (string, bool) {
+	designatedIn := func(se *ast.SelectorExpr, fields []hbField) (string, bool) {
 		sel := rw.info.Selections[se]
 		if sel == nil || sel.Kind() != types.FieldVal {
 			return "", false
@@ -1283,12 +1303,25 @@ func (rw *rewriter) hbAccesses(st ast.Stmt) (reads, writes []hbAcc) {
 			return "", false
 		}
 		recv := sel.Recv()
-		for _, f := range hbFields {
+		for _, f := range fields {
 			if v.Name() == f.field && v.Pkg().Path() == f.pkg && isNamed(recv, f.pkg, f.typ) {
 				return f.typ + "." + f.field, true
 			}
 		}
 		return "", false
+	}
+	isDesignatedField := func(se *ast.SelectorExpr) (string, bool) { return designatedIn(se, hbFields) }
+	// a slice-typed field whose elements are designated
+	isElemsField := func(e ast.Expr) (string, bool) {
+		se, ok := ast.Unparen(e).(*ast.SelectorExpr)
+		if !ok || len(hbElems) == 0 {
+			return "", false
+		}
+		return designatedIn(se, hbElems)
+	}
+	addAll := func(list *[]hbAcc, key ast.Expr, desc string) {
+		add(list, key, desc)
+		(*list)[len(*list)-1].all = true
 	}
 	isDesignatedMap := func(e ast.Expr) bool {
 		t := rw.typeOf(e)
@@ -1299,6 +1332,14 @@ func (rw *rewriter) hbAccesses(st ast.Stmt) (reads, writes []hbAcc) {
 		for _, m := range hbMapTypes {
 			if ts == m {
 				return true
+			}
+			if m == "*" {
+				// every map of the instrumented packages: an unsynchronised
+				// map access is a crash in Go ("concurrent map read and map
+				// write"), which a serialising scheduler can never trigger itself
+				if _, ok := t.Underlying().(*types.Map); ok {
+					return true
+				}
 			}
 		}
 		return false
@@ -1322,6 +1363,14 @@ func (rw *rewriter) hbAccesses(st ast.Stmt) (reads, writes []hbAcc) {
 					}
 				}
 			case *ast.IndexExpr:
+				if desc, ok := isElemsField(n.X); ok && simpleExpr(n.X) && simpleExpr(n.Index) {
+					key := &ast.UnaryExpr{Op: token.AND, X: n}
+					if write && n == ast.Unparen(e) {
+						add(&writes, key, desc+"[i]")
+					} else {
+						add(&reads, key, desc+"[i]")
+					}
+				}
 				if isDesignatedMap(n.X) && simpleExpr(n.X) {
 					if write && n == ast.Unparen(e) {
 						add(&writes, n.X, "map")
@@ -1331,6 +1380,19 @@ func (rw *rewriter) hbAccesses(st ast.Stmt) (reads, writes []hbAcc) {
 					add(&reads, n.X, "map")
 				}
 			case *ast.CallExpr:
+				if id, ok := n.Fun.(*ast.Ident); ok && (id.Name == "copy" || id.Name == "append") && len(hbElems) > 0 {
+					// copy(dst, src) writes every element of dst and reads every
+					// element of src; append(x, src...) reads every element of src
+					for i, a := range n.Args {
+						if desc, ok := isElemsField(a); ok && simpleExpr(a) {
+							if id.Name == "copy" && i == 0 {
+								addAll(&writes, a, desc+"[*]")
+							} else if id.Name == "copy" || n.Ellipsis.IsValid() || i == 0 {
+								addAll(&reads, a, desc+"[*]")
+							}
+						}
+					}
+				}
 				if id, ok := n.Fun.(*ast.Ident); ok && (id.Name == "len" || id.Name == "delete") && len(n.Args) > 0 && isDesignatedMap(n.Args[0]) && simpleExpr(n.Args[0]) {
 					if id.Name == "delete" {
 						add(&writes, n.Args[0], "map")
